@@ -478,14 +478,16 @@ def corpus():
                "insts": [{"n": "i", "of": {"k": "module", "name": "Inner"}, "conns": [["b1", copy.deepcopy(fresh)], ["b2", copy.deepcopy(shared)]]}]}
         d = {"bundles": [bdef], "top": "Top", "modules": [inner, top]}
         ops = [con("i", "b1", copy.deepcopy(shared)), con("i", "b2", copy.deepcopy(shared)), con("i", "b1", copy.deepcopy(fresh), form)]
+        variants = [ops]
         if form == "dict":
             # … and by replace(port, dict), which fails on a port that is not connected yet and must leave nothing behind
-            ops = [{"k": "replace", "bad": True, "form": "dict", "inst": "i", "port": "b1", "c": copy.deepcopy(fresh)}] + ops[:2] + \
-                  [{"k": "replace", "form": "dict", "inst": "i", "port": "b1", "c": copy.deepcopy(fresh)}]
-        for cut in (0, 2, len(ops)):
-            hist = gen_history(random.Random(0), d, intensity=0.0)  # the other modules: their final connections, nothing else
-            hist["Top"] = {"pre": ops[:cut], "post": ops[cut:]}
-            out.append({"design": d, "style": "proc", "history": hist})
+            variants.append([{"k": "replace", "bad": True, "form": "dict", "inst": "i", "port": "b1", "c": copy.deepcopy(fresh)}] + ops[:2] +
+                            [{"k": "replace", "form": "dict", "inst": "i", "port": "b1", "c": copy.deepcopy(fresh)}])
+        for ops in variants:
+            for cut in (0, 2, len(ops)):
+                hist = gen_history(random.Random(0), d, intensity=0.0)  # the other modules: their final connections, nothing else
+                hist["Top"] = {"pre": ops[:cut], "post": ops[cut:]}
+                out.append({"design": d, "style": "proc", "history": hist})
     # references to ports which are themselves on signals, used only as members of an anonymous bundle / a dict (such a use
     # leaves no back-reference on the port reference), by every connecting form, before and after the ports got their signals
     for form in ("dict", "connect", "setattr", "call"):
